@@ -350,10 +350,28 @@ def T4(m, R):
                         {norm(n.test.left), norm(n.test.comparators[0])} == {a, b} and \
                         isinstance(n.body[0], ast.Return) and const_val(n.body[0].value) is False:
                     lok = True
-    R.check(lok, sf, loops[0] if loops else sf.node, 'compares setup_seq with the head of seq element-wise from element 0',
-            construct='prefix loop')
     last = body[-1] if body else None
-    R.check(isinstance(last, ast.Return) and const_val(last.value) is True, sf, last, 'returns True when no element differs',
+    qform = False
+    if not lok and isinstance(last, ast.Return):
+        from ..shapes import quantifier
+        q = quantifier(last.value)
+        if q is not None:
+            kind, it, tgt, pred = q
+            if call_name(it) == 'zip' and {norm(a) for a in it.args} == {'self.setup_seq', seq} and isinstance(tgt, ast.Tuple) and kind == 'all':
+                a, b = [x.id for x in tgt.elts]
+                p_ = pred
+                negd = False
+                while isinstance(p_, ast.UnaryOp) and isinstance(p_.op, ast.Not):
+                    negd = not negd
+                    p_ = p_.operand
+                if isinstance(p_, ast.Compare) and {norm(p_.left), norm(p_.comparators[0])} == {a, b} and \
+                        ((isinstance(p_.ops[0], ast.Eq) and not negd) or (isinstance(p_.ops[0], ast.NotEq) and negd)):
+                    lok = qform = True
+    if lok or loops:
+        R.check(lok, sf, loops[0] if loops else last, 'compares setup_seq with the head of seq element-wise from element 0', construct='prefix loop')
+    else:
+        R.undecided(sf, sf.node, 'element-wise comparison of the setup sequence not recognised', construct='prefix loop')
+    R.check(qform or (isinstance(last, ast.Return) and const_val(last.value) is True), sf, last, 'returns True when no element differs',
             construct='final return')
 
 
